@@ -78,6 +78,8 @@ def run():
                 roles.add("open-component-matched-by-nothing")
         else:
             roles.add("more-components-than-upper-bound")
+        if any(R.separator_class(a) for a in member_asts[targets[i][0]] if a):
+            roles.add("separator-class")
         import ref as _ref
         if any(_ref.superposition_mismatch(a) for a in member_asts[targets[i][0]] if a):
             roles.add("tree-at-branch-edge")
